@@ -7,18 +7,18 @@ def instances(tier):
     q = tier == 'quick'
     out = []
     for n in ((0, 1, 3, 6) if q else (0, 1, 2, 3, 6, 10)):
-        for v in (0, 1, 2):
-            out.append({'entry': 'h_bytes', 'params': [n, v], 'bound': 'every byte array of length %d, write variant %d (put / write+append+reopen / stream operators)' % (n, v)})
+        for v in (0, 1, 2, 3):
+            out.append({'entry': 'h_bytes', 'params': [n, v], 'bound': 'every byte array of length %d, write variant %d (put / write+append+reopen / stream operators / one object queried, reopened, closed, queried)' % (n, v)})
     for k, ns, tail in ([(0, 0, 0), (0, 1, 0), (0, 2, 0), (0, 3, 1), (1, 3, 0), (251, 3, 1), (252, 3, 1), (253, 3, 0), (253, 3, 1), (254, 3, 1), (255, 2, 1), (256, 2, 0), (507, 3, 1), (508, 3, 1), (509, 2, 1)] if q else
                         [(0, 0, 0), (0, 1, 0), (0, 2, 0), (0, 3, 0), (0, 4, 1), (1, 4, 0), (250, 4, 1), (251, 4, 1), (252, 4, 1), (253, 4, 0), (253, 4, 1), (254, 4, 1), (255, 3, 1), (256, 3, 0), (506, 4, 1), (507, 4, 1), (508, 4, 1), (509, 3, 1), (510, 3, 1)]):
         out.append({'entry': 'h_lines', 'params': [k, ns, tail], 'bound': 'text = %d filler chars + every %d NUL-free bytes%s (LF, CRLF, lone CR, no final newline; 254/255-char fgets chunk edge)' % (k, ns, ' + "\\nz"' if tail else '')})
-    for k in ((1, 2) if q else (1, 2, 3)):
+    for k in ((0, 1, 2) if q else (0, 1, 2, 3)):
         for enc in (0, 1, 2):
             out.append({'entry': 'h_bom', 'params': [k, enc], 'bound': 'every sequence of %d scalar value(s) (no CR) in %s with byte-order mark' % (k, ('UTF-8', 'UTF-16LE', 'UTF-16BE')[enc])})
     return out
 
 
-BOUNDS = {'quick': 'byte contents of 0..6 symbolic bytes through three write paths; texts of k filler chars + 2-3 symbolic bytes with k in {0,1,251..256,507..509}; BOM files of 1-2 scalar values in three encodings',
+BOUNDS = {'quick': 'byte contents of 0..6 symbolic bytes through three write paths; texts of k filler chars + 2-3 symbolic bytes with k in {0,1,251..256,507..509}; BOM files of 0-2 scalar values in three encodings',
           'thorough': 'bytes to 10, 4 symbolic text bytes, 3 scalar values'}
 OUTSIDE = ['real file systems and sizes beyond 4096 bytes (the 65536-byte copy block, 16 MiB)', 'Directory::copy / move', 'CR characters inside UTF-16 BOM files (CRLF is folded to LF by text())']
 ASSUMPTIONS = ['stdio = env/vstdio.c (fopen/fread/fwrite/fgets/fseek/ftell/feof/stat over in-memory files, ISO C semantics); native replays use real files']
